@@ -53,6 +53,9 @@ pub struct CaseB {
   /// hybrid only: the OS-level write under the k-th send of the real writer fails
   /// (kind 0 = EAGAIN, queue full; 1 = EPIPE, consumer gone; 2 = EBADF)
   pub write_fault: Option<(usize, u8)>,
+  /// hybrid only: the OS-level read under the k-th next_keyboard (false) / next_tablet (true)
+  /// call of the real driver fails with EBADF
+  pub read_fault: Option<(usize, bool)>,
 }
 
 impl CaseB {
@@ -62,7 +65,7 @@ impl CaseB {
       "tab": self.tab.iter().map(|(t, on)| json!([t, on])).collect::<Vec<_>>(),
       "has_tablet": self.has_tablet,
       "cfg": {"p_eintr": self.cfg.p_eintr, "p_spurious_timeout": self.cfg.p_spurious_timeout, "p_spurious_ready": self.cfg.p_spurious_ready, "p_latency": self.cfg.p_latency, "p_oversleep": self.cfg.p_oversleep, "max_interrupts": self.cfg.max_interrupts},
-      "tape": self.tape, "fail_at": self.fail_at, "extra_ticks": self.extra_ticks, "kbd_end_at": self.kbd_end_at, "tab_end_at": self.tab_end_at, "hybrid": self.hybrid, "write_fault": self.write_fault.map(|(k, kind)| vec![k as u64, kind as u64])})
+      "tape": self.tape, "fail_at": self.fail_at, "extra_ticks": self.extra_ticks, "kbd_end_at": self.kbd_end_at, "tab_end_at": self.tab_end_at, "hybrid": self.hybrid, "write_fault": self.write_fault.map(|(k, kind)| vec![k as u64, kind as u64]), "read_fault": self.read_fault.map(|(k, t)| json!([k, t]))})
   }
   pub fn from_json(v: &Value) -> Result<CaseB, String> {
     let layout = layout_from_json(v.get("layout").ok_or("case: no layout")?)?;
@@ -82,7 +85,8 @@ impl CaseB {
       extra_ticks: v.get("extra_ticks").and_then(|x| x.as_u64()).unwrap_or(0) as u32,
       kbd_end_at: v.get("kbd_end_at").and_then(|x| x.as_u64()), tab_end_at: v.get("tab_end_at").and_then(|x| x.as_u64()),
       hybrid: v.get("hybrid").and_then(|x| x.as_bool()).unwrap_or(false),
-      write_fault: v.get("write_fault").and_then(|x| x.as_array()).and_then(|a| if a.len() == 2 { Some((a[0].as_u64().unwrap_or(0) as usize, a[1].as_u64().unwrap_or(0) as u8)) } else { None }) })
+      write_fault: v.get("write_fault").and_then(|x| x.as_array()).and_then(|a| if a.len() == 2 { Some((a[0].as_u64().unwrap_or(0) as usize, a[1].as_u64().unwrap_or(0) as u8)) } else { None }),
+      read_fault: v.get("read_fault").and_then(|x| x.as_array()).and_then(|a| if a.len() == 2 { Some((a[0].as_u64().unwrap_or(0) as usize, a[1].as_bool().unwrap_or(false))) } else { None }) })
   }
   pub fn hash(&self) -> u64 {
     let mut h = H::new(); hash_layout(&mut h, &self.layout);
@@ -90,7 +94,7 @@ impl CaseB {
     h.u(0xEE); for (t, on) in &self.tab { h.u(*t); h.u(*on as u64); }
     h.u(0xEF); for v in &self.tape { h.u(*v as u64); }
     h.u(self.fail_at.map(|x| x as u64 + 1).unwrap_or(0)); h.u(self.extra_ticks as u64);
-    h.u(self.kbd_end_at.map(|x| x + 1).unwrap_or(0)); h.u(self.tab_end_at.map(|x| x + 1).unwrap_or(0)); h.u(self.hybrid as u64); h.u(self.has_tablet as u64); h.u(self.write_fault.map(|(k, kind)| (k as u64) * 4 + kind as u64 + 1).unwrap_or(0));
+    h.u(self.kbd_end_at.map(|x| x + 1).unwrap_or(0)); h.u(self.tab_end_at.map(|x| x + 1).unwrap_or(0)); h.u(self.hybrid as u64); h.u(self.has_tablet as u64); h.u(self.write_fault.map(|(k, kind)| (k as u64) * 4 + kind as u64 + 1).unwrap_or(0)); h.u(self.read_fault.map(|(k, t)| (k as u64) * 2 + t as u64 + 1).unwrap_or(0));
     h.fin()
   }
 }
@@ -140,7 +144,7 @@ pub struct SimStats {
   pub eintr: u64, pub spurious_timeout: u64, pub spurious_ready: u64, pub latency: u64, pub oversleep: u64, pub io_error: u64,
   pub order_flipped: u64, pub both_devices_ready: u64, pub kbd_unplugged: u64, pub tab_unplugged: u64, pub arrival_during_drain: u64,
   pub backoff_sleeps: u64, pub multi_event_wakeups: u64, pub max_events_one_wakeup: u64, pub timer_ticks: u64, pub trace_cap_hit: u64,
-  pub os_write_fault: [u64; 3],
+  pub os_write_fault: [u64; 3], pub os_read_fault: u64, pub real_polls_compared: u64,
 }
 
 pub trait ByteLayer {
@@ -155,6 +159,12 @@ pub trait ByteLayer {
   fn sabotage_writer(&mut self, kind: u8);
   /// call the real writer and hand back its own verdict, nothing else
   fn raw_send(&mut self, evs: &Vec<Event>) -> Result<(), String>;
+  /// the real driver's register_poll
+  fn register(&mut self) -> Result<(), String>;
+  /// the real driver's poll with a zero timeout: Some(devices) or None for TimedOut
+  fn poll_now(&mut self) -> Result<Option<Vec<VDevice>>, String>;
+  /// make the next OS-level read of the keyboard (false) / tablet switch (true) fail with EBADF
+  fn sabotage_reader(&mut self, tablet: bool);
 }
 
 pub struct Sim<'a> {
@@ -178,6 +188,9 @@ pub struct Sim<'a> {
   interrupts: u32,
   in_drain: bool,
   write_fault: Option<(usize, u8)>,
+  read_fault: Option<(usize, bool)>,
+  kbd_reads_done: usize,
+  tab_reads_done: usize,
   sends_done: usize,
   hw_failed: bool,
   pub stats: SimStats,
@@ -191,7 +204,7 @@ impl<'a> Sim<'a> {
     reset_sim_slept_us();
     Sim { tape, cfg: case.cfg.clone(), kbd: case.kbd.iter().cloned().collect(), tab: if case.has_tablet { case.tab.iter().cloned().collect() } else { VecDeque::new() }, has_tablet: case.has_tablet,
       kbd_ready: VecDeque::new(), tab_ready: VecDeque::new(), kbd_notify: false, tab_notify: false, trace: vec![], fail_at: case.fail_at, calls: 0,
-      kbd_ended: false, tab_ended: false, kbd_end_at: case.kbd_end_at, tab_end_at: if case.has_tablet { case.tab_end_at } else { None }, extra_ticks: case.extra_ticks, interrupts: 0, in_drain: false, write_fault: if case.hybrid { case.write_fault } else { None }, sends_done: 0, hw_failed: false,
+      kbd_ended: false, tab_ended: false, kbd_end_at: case.kbd_end_at, tab_end_at: if case.has_tablet { case.tab_end_at } else { None }, extra_ticks: case.extra_ticks, interrupts: 0, in_drain: false, write_fault: if case.hybrid { case.write_fault } else { None }, read_fault: if case.hybrid { case.read_fault } else { None }, kbd_reads_done: 0, tab_reads_done: 0, sends_done: 0, hw_failed: false,
       stats: SimStats::default(), bytes, byte_error: None }
   }
   fn now(&self) -> u64 { sim_now_us() }
@@ -254,13 +267,42 @@ impl<'a> Sim<'a> {
     let d = if self.tab_ended { None } else { self.tab_end_at };
     [a, b, c, d].iter().flatten().min().cloned()
   }
+  /// Hybrid runs: ask the real driver's poll (zero timeout) what is ready and compare it with what
+  /// the simulated driver is about to report. `sim` = None for a time-out.
+  fn cross_check_real_poll(&mut self, sim: Option<&Vec<VDevice>>) {
+    if self.hw_failed { return; }
+    let real = match self.bytes.as_mut() { None => return, Some(b) => b.poll_now() };
+    if self.kbd_ended || self.tab_ended { return; } // an unplug has no counterpart on a pipe
+    self.stats.real_polls_compared += 1;
+    let err = match (real, sim) {
+      (Err(e), _) => Some(format!("the real driver's poll failed on pipes: {}", e)),
+      (Ok(None), None) => None,
+      (Ok(Some(r)), None) => Some(format!("nothing arrived, yet the real driver's poll reported {:?}", r)),
+      (Ok(real), Some(ds)) => {
+        let r = real.unwrap_or_default();
+        let mut e = None;
+        for d in &r { if !ds.contains(d) { e = Some(format!("the real driver's poll reported {:?} where only {:?} had new data", r, ds)); } }
+        for d in ds { if !r.contains(d) {
+          let has_data = match d { VDevice::Keyboard => !self.kbd_ready.is_empty(), VDevice::Tablet => !self.tab_ready.is_empty() };
+          if has_data { e = Some(format!("{:?} has unread new data but the real driver's poll reported only {:?}", d, r)); }
+        } }
+        e
+      }
+    };
+    if let Some(e) = err { if self.byte_error.is_none() { self.byte_error = Some(e); } }
+  }
   fn unplug_keyboard_now(&mut self) {
     if !self.kbd_ended { self.kbd_ended = true; self.kbd_notify = true; self.stats.kbd_unplugged += 1; }
   }
 }
 
 impl<'a> VerifDriver for Sim<'a> {
-  fn register_poll(&mut self) -> Result<(), String> { self.maybe_fail("register_poll")?; self.trace.push(Item::Register); Ok(()) }
+  fn register_poll(&mut self) -> Result<(), String> {
+    self.maybe_fail("register_poll")?;
+    if let Some(b) = self.bytes.as_mut() { if let Err(e) = b.register() { if self.byte_error.is_none() { self.byte_error = Some(format!("the real driver's register_poll failed on pipes: {}", e)); } } }
+    self.trace.push(Item::Register);
+    Ok(())
+  }
 
   fn poll(&mut self, timeout: Option<Duration>) -> Result<VPoll, String> {
     self.maybe_fail("poll")?;
@@ -312,6 +354,7 @@ impl<'a> VerifDriver for Sim<'a> {
             self.advance(to);
             if !(self.kbd_notify || self.tab_notify) {
               self.stats.timer_ticks += 1;
+              self.cross_check_real_poll(None);
               self.trace.push(Item::Poll { t_in, timeout: to_us, res: PollRes::TimedOut, t_out: self.now() });
               return Ok(VPoll::TimedOut);
             }
@@ -329,6 +372,7 @@ impl<'a> VerifDriver for Sim<'a> {
     if self.kbd_ready.len() + self.tab_ready.len() >= 16 { self.stats.max_events_one_wakeup += 1; }
     self.kbd_notify = false; self.tab_notify = false;
     self.in_drain = true;
+    self.cross_check_real_poll(Some(&ds));
     self.trace.push(Item::Poll { t_in, timeout: to_us, res: PollRes::Devices(ds.clone()), t_out: self.now() });
     Ok(VPoll::Devices(ds))
   }
@@ -336,6 +380,21 @@ impl<'a> VerifDriver for Sim<'a> {
   fn next_keyboard(&mut self) -> Result<VNext<Event>, String> {
     self.maybe_fail("next_keyboard")?;
     self.latency();
+    let kr = self.kbd_reads_done; self.kbd_reads_done += 1;
+    if self.hw_failed { self.trace.push(Item::NextK { res: None, end: true, t_out: self.now() }); return Ok(VNext::End); }
+    if let (Some((at, false)), true) = (self.read_fault, self.bytes.is_some()) {
+      if at == kr {
+        let b = self.bytes.as_mut().unwrap();
+        b.sabotage_reader(false);
+        self.hw_failed = true; self.stats.os_read_fault += 1; self.stats.io_error += 1;
+        self.trace.push(Item::Fail { what: "next_keyboard (OS-level read failure under the real driver)" });
+        return match b.read_kbd() {
+          Err(e) => Err(format!("{}: {}", INJECTED, e)),
+          Ok(Some(e)) => Ok(VNext::One(e)),   // the failure was swallowed
+          Ok(None) => Ok(VNext::Busy),
+        };
+      }
+    }
     let r = if !self.kbd_ready.is_empty() {
       let e = self.kbd_ready.pop_front().unwrap();
       let e = match self.bytes.as_mut() {
@@ -362,6 +421,21 @@ impl<'a> VerifDriver for Sim<'a> {
   fn next_tablet(&mut self) -> Result<VNext<bool>, String> {
     self.maybe_fail("next_tablet")?;
     self.latency();
+    let tr = self.tab_reads_done; self.tab_reads_done += 1;
+    if self.hw_failed { self.trace.push(Item::NextT { res: None, end: true, t_out: self.now() }); return Ok(VNext::End); }
+    if let (Some((at, true)), true) = (self.read_fault, self.bytes.is_some()) {
+      if at == tr {
+        let b = self.bytes.as_mut().unwrap();
+        b.sabotage_reader(true);
+        self.hw_failed = true; self.stats.os_read_fault += 1; self.stats.io_error += 1;
+        self.trace.push(Item::Fail { what: "next_tablet (OS-level read failure under the real driver)" });
+        return match b.read_tab() {
+          Err(e) => Err(format!("{}: {}", INJECTED, e)),
+          Ok(Some(on)) => Ok(VNext::One(on)),
+          Ok(None) => Ok(VNext::Busy),
+        };
+      }
+    }
     let r = if !self.tab_ready.is_empty() {
       let on = self.tab_ready.pop_front().unwrap();
       let on = match self.bytes.as_mut() {
